@@ -369,6 +369,7 @@ def gen_history(rng, max_ctx=7):
     flags = {}              # definition id -> exclusive flags used so far
     calls = []              # call steps made so far
     next_did = [1000]
+    covers = {}             # composite handle -> the handles it reads (members of a multi, target of a linked)
 
     def fname(d):
         return defs[d if d < 1000 else dtag[d]].get('fname', 'f')
@@ -401,6 +402,8 @@ def gen_history(rng, max_ctx=7):
         else:
             f = rng.choice(fresh) if fresh and rng.random() < 0.85 else rng.choice(fids)
             i = rng.randrange(len(kinds))
+            if covers and rng.random() < 0.4:       # into a context that a MultiContext / LinkedContext reads
+                i = rng.choice(rng.choice(list(covers.values())))
             x = rng.random() < (0.3 if sharing else 0.15)
         flags.setdefault(f, []).append(x)
         via = (defs[f].get('py') or {}).get('via')
@@ -435,15 +438,20 @@ def gen_history(rng, max_ctx=7):
             elif r2 < 0.78:
                 ms = [rng.randrange(len(kinds)) for _ in range(rng.choice([1, 2, 2, 3]))]
                 steps.append(['multi', ms])
+                covers[len(kinds)] = list(ms)
                 kinds.append('multi')
             else:
                 t = rng.randrange(len(kinds))
                 steps.append(['linked', rng.choice([None] + list(range(len(kinds)))), t])
+                covers[len(kinds)] = [t]
                 kinds.append('linked' if kinds[t] == 'plain' else 'linked*')
         else:
             if placed and rng.random() < 0.8:
                 i, d = rng.choice(placed)
-                if rng.random() < 0.25:
+                through = [h for h, ms in covers.items() if i in ms]
+                if through and rng.random() < 0.5:
+                    i = rng.choice(through)         # delete THROUGH a MultiContext / LinkedContext that reads it
+                elif rng.random() < 0.25:
                     i = rng.randrange(len(kinds))
             else:
                 i, d = rng.randrange(len(kinds)), rng.choice(fids)
